@@ -25,7 +25,15 @@ def make_case(rng):
                 back = j < i        # edges pointing "backwards" are skipped so that the computation graph stays acyclic
                 conns.append(dict(src=i, dst=j, skip=bool(back or rng.rand() < 0.2), window=int(rng.randint(1, 4)), comm=float(rng.choice([0.0, 0.003, 0.02, 0.1])),
                                   comm_std=float(rng.choice([0.0, 0.0, 0.001, 0.03, 0.15])), trainable=bool(rng.rand() < 0.15)))
-    return dict(nodes=nodes, conns=conns, ts_max=float(rng.choice([0.5, 1.0, 2.3])), episodes=int(rng.randint(1, 4)), key=int(rng.randint(0, 10000)), augment=bool(rng.rand() < 0.35))
+    case = dict(nodes=nodes, conns=conns, ts_max=float(rng.choice([0.5, 1.0, 2.3])), episodes=int(rng.randint(1, 4)), key=int(rng.randint(0, 10000)), augment=bool(rng.rand() < 0.35))
+    if rng.rand() < 0.3:
+        # exact ties: zero delays, commensurate rates, a horizon that is a multiple of every period - arrivals coincide with step starts (also on the very last step)
+        for nd in case["nodes"]:
+            nd.update(rate=float(rng.choice([1.0, 2.0, 4.0])), comp=0.0, comp_std=0.0)
+        for c in case["conns"]:
+            c.update(comm=0.0, comm_std=0.0, trainable=False)
+        case["ts_max"] = float(rng.choice([2.0, 3.0]))
+    return case
 
 
 def build(case, subset=None):
